@@ -213,7 +213,7 @@ Proof. intro H. unfold request_output, not_finalized, bind. reject. congruence. 
 Definition changes_definition (o : op) : bool :=
   match o with
   | OpPop _ | OpArrayPop _ | OpFlow _ | OpUDeath _ _ | OpStrat _ | OpRebalance _ _ _ | OpRequest _ _ _ => true
-  | OpWhitelist _ | OpCV _ _ | OpFinalize => false
+  | OpWhitelist _ | OpCV _ _ | OpFinalize | OpSetDefaults _ => false
   end.
 
 Lemma fold_err {A B} (g : result A -> B -> result A) (l : list B) w :
@@ -247,4 +247,32 @@ Proof.
     destruct (validate_strat_object s); [|apply rejected_err]. reject. rewrite Hf in *. discriminate.
   - unfold adjust_population_split, not_finalized, bind. rewrite Hf. cbn. apply rejected_err.
   - unfold request_output, not_finalized, bind. rewrite Hf. cbn. apply rejected_err.
+Qed.
+
+(* finalisation is one-way: no accepted call - set_default_parameters included - re-opens a
+   finalised model, so the refusals above hold from the first run on, whatever is called afterwards *)
+Theorem finalized_stays m o m' :
+  m_finalized m = true -> m_orig m <> [] -> apply_op m o = Ok m' -> m_finalized m' = true /\ m_orig m' = m_orig m.
+Proof.
+  intros Hf Horig H.
+  destruct (changes_definition o) eqn:Ec.
+  - exfalso. destruct (finalized_refuses m o Hf Ec Horig) as [w Hw]. congruence.
+  - destruct o; cbn in Ec; try discriminate; cbn [apply_op] in H.
+    + injection H as <-. cbn. split; [exact Hf|reflexivity].
+    + unfold add_computed_value, bind in H.
+      destruct (guard _ _) in H; [|discriminate]. cbn in H. injection H as <-. cbn. split; [exact Hf|reflexivity].
+    + unfold finalize, bind in H. destruct (guard _ _) in H; [|discriminate]. cbn in H. injection H as <-.
+      cbn. split; reflexivity.
+    + injection H as <-. cbn. split; [exact Hf|reflexivity].
+Qed.
+
+Theorem finalized_refuses_forever ops : forall m k m' o,
+  m_finalized m = true -> m_orig m <> [] -> apply_ops m ops k = (m', None) ->
+  changes_definition o = true -> rejected (apply_op m' o).
+Proof.
+  induction ops as [|o1 ops IH]; intros m k m' o Hf Horig H Ho; cbn in H.
+  - injection H as <-. apply finalized_refuses; assumption.
+  - destruct (apply_op m o1) as [m1|w] eqn:E; [|discriminate].
+    destruct (finalized_stays m o1 m1 Hf Horig E) as [Hf1 Ho1].
+    apply (IH m1 (S k) m' o); [exact Hf1 | congruence | exact H | exact Ho].
 Qed.
